@@ -42,8 +42,8 @@ def main():
                 open(p, "w").write(src.replace(e["old"], e["new"]))
             if ok_apply:
                 r = subprocess.run([os.path.join(VERIF, "check"), m["property"], "--repo", base, "--evidence-dir",
-                                    os.path.join(tmp, "ev")], stdout=subprocess.PIPE, stderr=subprocess.STDOUT,
-                                   text=True)
+                                    os.path.join(tmp, "ev"), "--tier", m.get("tier", "quick")],
+                                   stdout=subprocess.PIPE, stderr=subprocess.STDOUT, text=True)
                 out = r.stdout
                 exp = m["expect"]
                 exps = exp if isinstance(exp, list) else [exp]
